@@ -1326,7 +1326,7 @@ def main(repo: str, outdir: str, dry: bool = False) -> int:
         import py2lean_state
         import py2lean
         try:
-            body = py2lean_state.gen_svs(src("problem.py"))
+            body = py2lean_state.gen_svs(src("problem.py")) + "\n" + py2lean_state.gen_problem_variables(src("problem.py"))
         except (py2lean_state.TranslateError, py2lean.TranslateError) as e:
             raise TranslateError(str(e))
         return (HEADER + "import Optyx.Syntax\n\nset_option linter.unusedVariables false\n\n"
